@@ -139,6 +139,19 @@ def gen_case(seed: int, prop: str, tier: str, kind: str | None = None) -> dict:
         else:
             has_parent = i > 0
         L["ops"] = gen.gen_layer_ops(rng, nsec, L["unit"], caps, nops, wid, has_parent, gran=L["gran"])
+        if i and rng.random() < 0.35:
+            # the guest rewrote what it had written before the layer was created: the same ranges and units (also the same
+            # compressed / deallocated units) hold different content in neighbouring layers
+            prev = layers[i - 1]
+            echo = []
+            for j, op in enumerate(prev["ops"]):
+                if op[0] == "w" and op[1] < nsec and op[1] % L["gran"] == 0:
+                    ln = min(op[2], nsec - op[1])
+                    if ln > 0 and ln % L["gran"] == 0:
+                        echo.append(["w", op[1], ln, wid + 50 + j])
+                elif op[0] == "c" and prev["unit"] == L["unit"] and caps.get("compress") and op[1] * L["unit"] < nsec:
+                    echo.append(list(op))
+            L["ops"] = L["ops"] + echo if rng.random() < 0.5 else echo + L["ops"]
         wid += 100
     if kind == "qcow2snap" and case.get("raw_backing"):
         case["backing_ops"] = gen.gen_layer_ops(rng, layers[0]["cfg"]["nsectors"], layers[0]["unit"], {}, 3, 9000, False)
@@ -167,6 +180,13 @@ def gen_case(seed: int, prop: str, tier: str, kind: str | None = None) -> dict:
     reqs = gen.gen_requests(rng, size, ub, sorted(m for m in marks if m <= size), nreq, case["align"], case["sector"], max_len=1 << 21)
     cops = []
     for off, ln in reqs:
+        if kind in ("qcow2snap", "hdd") and rng.random() < 0.35:
+            # the same range through every view, one after the other (views share library objects: what one view fetched,
+            # inflated or cached must not show through another)
+            order = list(range(len(layers)))
+            rng.shuffle(order)
+            cops.extend(["r", vi, off, ln] for vi in order)
+            continue
         view_i = rng.randrange(len(layers)) if kind in ("qcow2snap", "hdd") else len(layers) - 1
         if kind in ("vhdx", "vmdk") and rng.random() < 0.25:
             sec = case["sector"]
